@@ -90,6 +90,7 @@ Print Assumptions C13_blank_last.
 (** ... and on that frozen extra evaluation only the 'last() -> ...' components run *)
 Theorem C13_blank_last_only_lasts : forall c cs s, do_lasts c cs s = do_lasts c (filter is_last_when cs) s.
 Proof. exact do_lasts_only_lasts. Qed.
+Print Assumptions C13_blank_last_only_lasts.
 
 (** the control functions do what the hypotheses above ask of them *)
 Theorem C13_ctl_functions : forall c s, frozen mx s = false ->
@@ -98,6 +99,7 @@ Theorem C13_ctl_functions : forall c s, frozen mx s = false ->
 Proof.
   intros c s H. split; [apply stop_sets_stopped; exact H|]. split; [apply skip_sets_skip; exact H|]. intros i. apply push_is_calm.
 Qed.
+Print Assumptions C13_ctl_functions.
 
 (** D8 (fixed in /repo): with the deviation switch on, skip() as the final component returns its
     own line and swallows the next one; the clean model does neither.
@@ -111,6 +113,7 @@ Theorem C13_skip_last_leaks_refuted :
   map snd (log (x mx (st Z mx clean))) = [0; 1; 2; 3; 4] /\
   returned Z mx clean = [] /\ returned Z mx quirky = [[2]].
 Proof. vm_compute. repeat split. Qed.
+Print Assumptions C13_skip_last_leaks_refuted.
 
 (** Non-vacuity: stop in the middle of line 3 of a 5-record file whose record 2 is blank: the
     push after stop() does not run on line 3, line 3 is not returned, line 4 is never read. *)
